@@ -20,6 +20,15 @@ StreamStart(v) == [pc |-> "Reading", sg |-> GenNew(v), outcome |-> [kind |-> "No
 \* the reader delivered `data` (1 <= Len(data) <= buffer length)
 SReadOk(v, s, data) == [s EXCEPT !.sg = GenUpdate(v, s.sg, data)]
 SReadOkPeriodic(v, s, pat, off, k) == [s EXCEPT !.sg = GenUpdatePeriodic(v, s.sg, pat, off, k)]
+\* `count` consecutive reads of n bytes each (logged as one event): by chunking independence
+\* (C03, MCGenChunk) the same as one delivery of count * n bytes; offW is a word, the total wide
+SReadOkRun(v, s, pat, offW, n, count) ==
+    LET totalW == WScale(WOfNat(n), count)          \* n < 2^21, count < 2^12: fits a word
+        lead   == IF WLe(WOfNat(8), totalW) THEN 8 ELSE WNat(totalW)
+        g1     == GenUpdate(v, s.sg, PeriodicData(pat, WModSmall(offW, Len(pat)), lead))
+        restW  == WSub(totalW, WOfNat(lead))
+    IN  [s EXCEPT !.sg = IF restW = WZero \/ WLe(MaxGenLen, g1.len) THEN g1
+                         ELSE GenUpdatePeriodicWide(v, g1, pat, WAddNat(offW, lead), restW, <<>>)]
 \* ErrorKind::Interrupted: the read is retried, nothing changes
 SReadInterrupted(v, s) == s
 \* any other error ends the run with that error and no hash
